@@ -447,16 +447,22 @@ def shrink(drv, mdl, workdir, g, first, budget=120):
     return cur
 
 
-def run_sharded(exe, files, timeout):
-    procs = [subprocess.Popen([exe, p], stdout=subprocess.PIPE, stderr=subprocess.DEVNULL) for p in files]
+def run_sharded(exe, files, timeout, tag):
+    """one process per shard, all at once; output goes to files so that no process waits on a full pipe"""
+    procs = []
+    for p in files:
+        out = open(p + "." + tag + ".out", "wb")
+        procs.append((subprocess.Popen([exe, p], stdout=out, stderr=subprocess.DEVNULL), out, p + "." + tag + ".out"))
     outs = []
-    for pr in procs:
+    for pr, out, path in procs:
         try:
-            o = pr.communicate(timeout=timeout)[0]
+            pr.wait(timeout=timeout)
         except subprocess.TimeoutExpired:
             pr.kill()
-            o = pr.communicate()[0]
-        outs.append(o.decode("utf-8", "replace").split("\n"))
+            pr.wait()
+        out.close()
+        outs.append(open(path, "rb").read().decode("utf-8", "replace").split("\n"))
+        os.remove(path)
     return outs
 
 
@@ -500,13 +506,14 @@ def run(ctx):
             for l in lines[k::nsh]:
                 f.write(l + "\n")
         files.append(p)
-    couts = run_sharded(drv, files, 3000)
-    mouts = run_sharded(mdl, files, 3000)
+    couts = run_sharded(drv, files, 3000, "impl")
+    mouts = run_sharded(mdl, files, 3000, "model")
     hist = {"shape": {}, "n": {}, "layout": {"V": 0, "I": 0, "J": 0}, "with_destroyed": 0, "analysed(am!=INVALID)": 0,
             "answers_true": 0, "answers_false": 0}
     nontrivial = set()
     nq = 0
     nbad = 0
+    failing = []
     for k in range(nsh):
         idxs = list(range(k, len(lines), nsh))
         for j, gi in enumerate(idxs):
@@ -533,18 +540,22 @@ def run(ctx):
             if edges and len(g["qs"]) >= 2:
                 nontrivial.add(hashlib.sha1(line.encode()).hexdigest())
             if problems:
-                nbad += 1
-                if nbad <= 3:
-                    small = shrink(drv, mdl, ctx.workdir, g, first)
-                    sl = case_line(small)
-                    sc, sm = run_one(drv, mdl, ctx.workdir, sl, "min")
-                    sp, sfirst = judge_graph(small, sc, sm)
-                    if not sp:      # shrinking lost the failure (should not happen): keep the original
-                        sl, sc, sm, sp, sfirst = line, c, m, problems, first
-                    ctx.violation("C18 graph (%s, n=%d): %s" % (g["shape"], g["n"], "; ".join(sp[:3])), "graph_%d.json" % nbad,
-                                  {"mode": "graph", "case": sl, "impl": sc, "model": sm, "problems": sp,
-                                   "first_failing_query": (small["qs"][sfirst] if sfirst is not None and sfirst < len(small["qs"]) else None),
-                                   "original_case": line})
+                failing.append((gi, c, m, problems, first))
+    # report up to three failing cases, wrong answers before crashes / time-outs, small graphs first; each is shrunk
+    failing.sort(key=lambda t: (t[1].startswith(BAD_TOKENS), graphs[t[0]]["n"], len(lines[t[0]])))
+    for gi, c, m, problems, first in failing[:3]:
+        nbad += 1
+        g, line = graphs[gi], lines[gi]
+        small = shrink(drv, mdl, ctx.workdir, g, first, budget=(6 if c.startswith("TIMEOUT") else 120))
+        sl = case_line(small)
+        sc, sm = run_one(drv, mdl, ctx.workdir, sl, "min")
+        sp, sfirst = judge_graph(small, sc, sm)
+        if not sp:      # shrinking lost the failure (should not happen): keep the original
+            sl, sc, sm, sp, sfirst = line, c, m, problems, first
+        ctx.violation("C18 graph (%s, n=%d): %s" % (g["shape"], g["n"], "; ".join(sp[:3])), "graph_%d.json" % nbad,
+                      {"mode": "graph", "case": sl, "impl": sc, "model": sm, "problems": sp,
+                       "first_failing_query": (small["qs"][sfirst] if sfirst is not None and sfirst < len(small["qs"]) else None),
+                       "original_case": line, "failing_cases_in_this_run": len(failing)})
     ctx.cov["evaluations"] += nq
     ctx.log("graphs: %d (+%d corpus), %d query evaluations, %s" % (ngraphs, ncorpus, nq, {k: v for k, v in hist.items() if k != "n"}))
     ctx.cov["distinct_nontrivial"] = len(nontrivial) + (keyinfo or {}).get("distinct_unordered_pairs", 0)
